@@ -61,6 +61,7 @@ def check(ctx: Ctx):
     ctx.functions |= sub.functions
     table = c12.formulas(ctx)
     c12.identities(ctx, table)
+    locate.check_origin_cluster_kept(ctx)
     ctx.expect("FRAME", 3)
     ctx.expect("EXHAUST", 4)
     ctx.expect("CONNECT", 3)
